@@ -547,39 +547,46 @@ private theorem bookmarkStep_anchors (label : String) (level : Option Int) (stat
   · split <;> rfl
   · rfl
 
-/-- The named destination recorded for a box that carries an anchor and **no bookmark** is its hit
-area's top-left / bottom-right corners through the accumulated matrix.
-(The full statement — the same for every box — is false of the code: see `Witness.C18`.) -/
-theorem anchor_position_partial (kind : Kind) (hx hy hw hh : Rat) (label : String) (level : Option Int)
+/-- The named destination recorded for a box that carries an anchor — bookmark or not — is its hit
+area's top-left / bottom-right corners through the accumulated matrix, applied once. -/
+theorem anchor_position (kind : Kind) (hx hy hw hh : Rat) (label : String) (level : Option Int)
     (state : String) (link : Option (String × String)) (att : Bool) (n : String) (m : Option Matrix) (acc : Acc)
-    (hn : n ≠ "") (hnew : hasName n acc.anchors = false) (hnb : hasBookmark label level = false) :
+    (hn : n ≠ "") (hnew : hasName n acc.anchors = false) :
     (visit kind hx hy hw hh label level state link att (some n) m acc).anchors =
       acc.anchors ++ [⟨n, match m with
         | some mm => ⟨(mm.transformPoint hx hy).1, (mm.transformPoint hx hy).2,
             (mm.transformPoint (hx + hw) (hy + hh)).1, (mm.transformPoint (hx + hw) (hy + hh)).2⟩
         | none => ⟨hx, hy, hx + hw, hy + hh⟩⟩] := by
   have hne : (n != "") = true := by simpa using hn
-  unfold visit
-  simp only [hnb, posAfterBookmark, Bool.false_eq_true, if_false]
-  unfold anchorStep
+  unfold visit anchorStep
   simp only [bookmarkStep_anchors, linkStep_anchors, hasAnchor, hne, hnew, Bool.not_false, Bool.and_self, if_true]
   cases m <;> rfl
 
-example : hasName "a" ({} : Acc).anchors = false ∧ hasBookmark "" none = false ∧ "a" ≠ "" := by decide
+/-- The bookmark of a labelled box points to the same transformed corner. -/
+theorem bookmark_position (kind : Kind) (hx hy hw hh : Rat) (label : String) (l : Int) (state : String)
+    (link : Option (String × String)) (att : Bool) (anchor : Option String) (m : Option Matrix) (acc : Acc)
+    (hb : hasBookmark label (some l) = true) :
+    (visit kind hx hy hw hh label (some l) state link att anchor m acc).bookmarks =
+      (linkStep kind hx hy hw hh link att m acc).bookmarks ++
+        [⟨l, label, (bookmarkPos m hx hy).1, (bookmarkPos m hx hy).2, state⟩] := by
+  have h1 : ∀ (a : Acc) pos, (anchorStep anchor m pos hw hh a).bookmarks = a.bookmarks := by
+    intro a pos; unfold anchorStep; split
+    · split <;> rfl
+    · rfl
+  unfold visit
+  rw [h1]
+  unfold bookmarkStep
+  simp only [hb, if_true]
 
-/-- Without any transform in force, bookmark or not, the anchor is the hit area. -/
+example : hasName "a" ({} : Acc).anchors = false ∧ hasBookmark "one" (some 1) = true ∧ "a" ≠ "" := by decide
+
+/-- Without any transform in force the anchor is the hit area. -/
 theorem anchor_position_untransformed (kind : Kind) (hx hy hw hh : Rat) (label : String) (level : Option Int)
     (state : String) (link : Option (String × String)) (att : Bool) (n : String) (acc : Acc)
     (hn : n ≠ "") (hnew : hasName n acc.anchors = false) :
     (visit kind hx hy hw hh label level state link att (some n) none acc).anchors =
-      acc.anchors ++ [⟨n, ⟨hx, hy, hx + hw, hy + hh⟩⟩] := by
-  have hne : (n != "") = true := by simpa using hn
-  have hp : posAfterBookmark (hasBookmark label level) none hx hy = (hx, hy) := by
-    unfold posAfterBookmark; split <;> rfl
-  unfold visit
-  simp only [hp]
-  unfold anchorStep
-  simp only [bookmarkStep_anchors, linkStep_anchors, hasAnchor, hne, hnew, Bool.not_false, Bool.and_self, if_true]
+      acc.anchors ++ [⟨n, ⟨hx, hy, hx + hw, hy + hh⟩⟩] :=
+  anchor_position kind hx hy hw hh label level state link att n none acc hn hnew
 
 /-- Duplicate ids: only the first is an anchor (`anchor_name not in anchors`). -/
 theorem anchor_first_wins (kind : Kind) (hx hy hw hh : Rat) (label : String) (level : Option Int)
